@@ -630,4 +630,9 @@ def replay_truthiness():
 
 
 def units(tier):
-    return [Register(), Filter(), Dispatch('_react'), Dispatch('_write_packet'), Decorator(), PacketTruthiness()]
+    # "for every outgoing packet ... once each": a queued packet is handed to _write_packet (where its listeners run) by
+    # _pop_packet only - once, also when the write fails
+    from . import c11
+    pop = c11.PopPacket()
+    pop.prop, pop.name = 'C13', 'C13.outgoing.offered-once'
+    return [Register(), Filter(), Dispatch('_react'), Dispatch('_write_packet'), Decorator(), PacketTruthiness(), pop]
